@@ -420,7 +420,8 @@ def native_check(rp, name, fn, rng, count):
         checked += 1
         if not valid or not m.c_same(got, E):
             return checked, dict(key="%s.%s" % (name, fn), u=hex(u), v=hex(v), request=ln,
-                                 native_output=[hex(x) for x in r_[1]], expected_affine=[hex(x) for x in E],
+                                 native_output=[hex(x) for x in r_[1]],
+                                 expected_affine=([hex(x) for x in E] if E is not None else None),   # None: neutral
                                  valid_representation=bool(valid)), None
     return checked, None, None
 
@@ -435,7 +436,11 @@ def run(tier, only=None):
     names = [c for c in ROUTINES if c in only] or (QUICK if tier == "quick" else list(ROUTINES))
     fsel = [o for o in only if o not in ROUTINES]
     # `--only helper` (or verify_helper_vartime): the verification helpers alone; no selection: everything
-    want_helper = (not fsel) or any(o in ("helper", "verify_helper_vartime") for o in fsel)
+    # (`helper-glue` / `helper-loop`: one half of it)
+    HTOK = {"helper": ("glue", "loop"), "verify_helper_vartime": ("glue", "loop"), "helper-glue": ("glue",),
+            "helper-loop": ("loop",)}
+    hparts = tuple(sorted({p for o in fsel if o in HTOK for p in HTOK[o]})) or ("glue", "loop")
+    want_helper = (not fsel) or any(o in HTOK for o in fsel)
     rp = RP.Replay(list(RP.CURVES))
     th = threading.Thread(target=rp.build, daemon=True)
     th.start()
@@ -513,7 +518,7 @@ def run(tier, only=None):
     if want_helper:
         try:
             hobs, htasks, hmeta0 = HP.plan(MIR, config_for, _order_of, tier, [c for c in only if c in HP.HELPERS],
-                                           Obligation)
+                                           Obligation, hparts)
         except (MirError, Unsupported) as e:
             hobs, htasks, hmeta0 = [], [], []
             merr = merr or "helper planning failed: %s" % str(e)[:400]
@@ -742,7 +747,8 @@ def replay(path):
         print("replay: native run failed %r" % (r,))
         return 2
     got, valid = m.c_decode(r[1])
-    exp = tuple(int(v, 16) for v in model["expected_affine"])
+    ea = model.get("expected_affine")
+    exp = None if ea is None else tuple(int(v, 16) for v in ea)      # None: the point at infinity
     if valid and m.c_same(got, exp):
         print("NOT REPRODUCED")
         return 0
